@@ -101,7 +101,9 @@ impl MADT {
     fn update_header(&mut self, data: &[u8]) {
         let len = data.len() as u32;
         let old_len = self.header.table_header.length.get();
-        let new_len = len + old_len;
+        let new_len = old_len
+            .checked_add(len)
+            .expect("table length overflows the 32-bit Length field");
         self.header.table_header.length.set(new_len);
 
         // Remove the bytes from the old length, add the new length
